@@ -182,6 +182,8 @@ func checkC11(c *Check) {
 	c.passiveNeverDials("C11.4 passive-never-dials")
 	c.inboundLookup("C11.2 inbound-reaches-peer", "C11.2 inbound-reaches-peer")
 	c.dampPeerRule("C11.1 cease-not-damped")
+	c.peerManagerContracts("C11.2 manager-effects")
+	c.fsmContracts("C11.2 fsm-effects")
 	// the damping timer re-enables the outbound FSM and clears hold-down
 	c.holdDownSemantics("C11.5 resume-after-holddown")
 	c.readerHandoff()
